@@ -89,6 +89,130 @@ def run(ctx, rep):
     d3(ctx, rep)
     d4(ctx, rep)
     d5(ctx, rep)
+    d6(ctx, rep)
+
+
+def d6(ctx, rep):
+    """Ownership convention of an edge's two parents: parents[0] is the parent that contains the edge's L node.
+
+    get_conditional_uni(left_parent, right_parent), prepare_next_tree, get_tau_matrix and Edge.get_likelihood all read
+    `the h-function of L` from parents[0] and `of R` from parents[1].  The conditioned pair is named by *sorting* the two
+    nodes, so the convention holds only if the construction site orders the parents accordingly."""
+    prog = ctx.prog
+    rep.rule('D6.owner', 'parents[0] of an edge is the parent that contains its L node: the construction site orders the parents like the '
+             'conditioned pair, and every reader pairs L with parents[0] and R with parents[1]')
+    from .. import setkind as SK
+    edge = prog.cls(TREE + 'Edge')
+    ie = edge.methods.get('_identify_eds_ing')
+    gc = edge.methods.get('get_child_edge')
+    if ie is None or gc is None:
+        raise AnalysisError('anchor vanished: Edge._identify_eds_ing / Edge.get_child_edge')
+    # 1. is the pair named by ownership (left from the first edge) or by sorting?
+    p1, p2 = ie.params[0], ie.params[1]
+    rets = [n for n in walk_no_nested(ie.node) if isinstance(n, ast.Return) and isinstance(n.value, ast.Tuple) and len(n.value.elts) == 3]
+    by_value = None
+    if rets:
+        l = rets[0].value.elts[0]
+        for s_ in walk_no_nested(ie.node):
+            if isinstance(s_, ast.Assign) and isinstance(s_.targets[0], ast.Tuple) and s_.targets[0].elts and isinstance(s_.targets[0].elts[0], ast.Name) \
+                    and isinstance(l, ast.Name) and s_.targets[0].elts[0].id == l.id:
+                v = s_.value
+                while isinstance(v, ast.Subscript):
+                    v = v.value
+                if isinstance(v, ast.Call) and call_name(v) == 'sorted':
+                    by_value = True
+        if by_value is None and isinstance(l, ast.Name):
+            d = single_def(ie.node, l.id)
+            if isinstance(d, ast.AST):
+                sv = SK.evaluate(ctx, SK.Env(ie, {p1: p1, p2: p2}), d.func.value if isinstance(d, ast.Call) and call_name(d) == 'pop' and isinstance(d.func, ast.Attribute) else d)
+                if isinstance(sv, tuple) and sv[0] == 'op' and sv[1] == '-' and sv[2] == SK.nodes_of(p1) and sv[3] == SK.nodes_of(p2):
+                    by_value = False
+    lp, rp = gc.params[2], gc.params[3]
+    if by_value is None:
+        rep.undecided('D6.owner', ie, ie.node.name, 'how the conditioned pair (left, right) is named was not recognised', construct='ownership of the left node')
+    elif by_value is False:
+        rep.ok('D6.owner', ie, rets[0], 'the left node is taken from the first edge (A - B): parents stay in the order given', construct='ownership of the left node')
+    else:
+        # the pair is sorted by node number: the construction site must reorder the parents
+        call = [c for c in walk_no_nested(gc.node) if isinstance(c, ast.Call) and call_name(c) == '_identify_eds_ing']
+        lv = None
+        if call and isinstance(stmt_of(call[0]), ast.Assign) and isinstance(stmt_of(call[0]).targets[0], (ast.Tuple, ast.List)):
+            e0 = stmt_of(call[0]).targets[0].elts[0]
+            lv = e0.id if isinstance(e0, ast.Name) else None
+        swaps = []
+        for n in walk_no_nested(gc.node):
+            if isinstance(n, ast.If):
+                t = n.test
+                neg = False
+                while isinstance(t, ast.UnaryOp) and isinstance(t.op, ast.Not):
+                    t, neg = t.operand, not neg
+                if isinstance(t, ast.Compare) and len(t.ops) == 1 and isinstance(t.ops[0], (ast.In, ast.NotIn)) and isinstance(t.left, ast.Name):
+                    members = {(x.value.id, x.attr) for x in ast.walk(t.comparators[0]) if isinstance(x, ast.Attribute) and isinstance(x.value, ast.Name)}
+                    absent = isinstance(t.ops[0], ast.NotIn) != neg
+                    body = n.body if absent else n.orelse
+                    swap = any(isinstance(b, ast.Assign) and isinstance(b.targets[0], ast.Tuple) and isinstance(b.value, ast.Tuple)
+                               and [getattr(x, 'id', None) for x in b.targets[0].elts] == [lp, rp] and [getattr(x, 'id', None) for x in b.value.elts] == [rp, lp]
+                               for b in body)
+                    if swap and t.left.id == lv and members == {(lp, 'L'), (lp, 'R')}:
+                        swaps.append(n)
+                    # mirror image: `if left in (right_parent.L, right_parent.R): swap`
+                    body2 = n.orelse if absent else n.body
+                    swap2 = any(isinstance(b, ast.Assign) and isinstance(b.targets[0], ast.Tuple) and isinstance(b.value, ast.Tuple)
+                                and [getattr(x, 'id', None) for x in b.targets[0].elts] == [lp, rp] and [getattr(x, 'id', None) for x in b.value.elts] == [rp, lp]
+                                for b in body2)
+                    if swap2 and t.left.id == lv and members == {(rp, 'L'), (rp, 'R')}:
+                        swaps.append(n)
+        pst = [s_ for s_ in walk_no_nested(gc.node) if isinstance(s_, ast.Assign) and isinstance(s_.targets[0], ast.Attribute) and s_.targets[0].attr == 'parents']
+        uses = [c for c in walk_no_nested(gc.node) if isinstance(c, ast.Call) and call_name(c) == 'get_conditional_uni']
+        if swaps and all(s_.lineno > swaps[0].lineno for s_ in pst) and all(c.lineno > swaps[0].lineno for c in uses):
+            rep.ok('D6.owner', gc, swaps[0], 'the parents are swapped when the (sorted) left node does not belong to the left parent, before they are used and stored',
+                   construct='ownership of the left node')
+        elif lv is None or not pst:
+            rep.undecided('D6.owner', gc, gc.node.name, 'construction of the child edge not recognised', construct='ownership of the left node')
+        else:
+            rep.bad('D6.owner', gc, pst[0], 'the conditioned pair is named by sorting the two nodes, but the parents are stored in the order given: when the smaller node '
+                    'belongs to the second parent, get_conditional_uni / prepare_next_tree / get_tau_matrix read the wrong parent\'s h-function and '
+                    'Edge.get_likelihood reads a cell the previous tree never wrote', construct='ownership of the left node')
+    # 2. the reader in Edge.get_likelihood pairs L with parents[0] and R with parents[1]
+    gl = edge.methods.get('get_likelihood')
+    if gl is None:
+        return
+
+    def parent_index(e):
+        """0 / 1 when e denotes self.parents[0] / self.parents[1] (directly or through a tuple unpack of self.parents)."""
+        if isinstance(e, ast.Subscript) and is_self_attr(e.value, gl.self_name, 'parents') and isinstance(const_value(e.slice), int):
+            return const_value(e.slice)
+        if isinstance(e, ast.Name):
+            for s_ in walk_no_nested(gl.node):
+                if isinstance(s_, ast.Assign) and isinstance(s_.targets[0], (ast.Tuple, ast.List)) and is_self_attr(s_.value, gl.self_name, 'parents'):
+                    names = [getattr(x, 'id', None) for x in s_.targets[0].elts]
+                    if e.id in names:
+                        return names.index(e.id)
+                if isinstance(s_, ast.Assign) and isinstance(s_.targets[0], ast.Name) and s_.targets[0].id == e.id:
+                    return parent_index(s_.value)
+        return None
+    found = 0
+    for sub in [x for x in walk_no_nested(gl.node) if isinstance(x, ast.Subscript) and isinstance(x.slice, ast.Tuple) and len(x.slice.elts) == 2]:
+        node_e, ing = sub.slice.elts
+        side = 'L' if is_self_attr(node_e, gl.self_name, 'L') else ('R' if is_self_attr(node_e, gl.self_name, 'R') else None)
+        if side is None or not isinstance(ing, ast.Name):
+            continue
+        d = single_def(gl.node, ing.id)
+        pidx = None
+        if isinstance(d, ast.AST):
+            for x in ast.walk(d):
+                if isinstance(x, ast.BinOp) and isinstance(x.op, ast.Sub) and is_self_attr(x.left, gl.self_name, 'D') and isinstance(x.right, ast.Attribute) and x.right.attr == 'D':
+                    pidx = parent_index(x.right.value)
+        if pidx is None:
+            continue
+        found += 1
+        want = 0 if side == 'L' else 1
+        rep.check('D6.owner', gl, sub, pidx == want, f'Edge.get_likelihood: the conditioning node of {side} is D - parents[{want}].D',
+                  f'Edge.get_likelihood pairs self.{side} with parents[{pidx}]: the cell uni_matrix[{side}, D - parents[{pidx}].D] was written for the other node '
+                  '(or never): the likelihood uses a wrong or uninitialised conditional value', construct=f'Edge.get_likelihood: parent of {side}')
+    if found == 0:
+        rep.undecided('D6.owner', gl, gl.node.name, 'how Edge.get_likelihood looks up the conditional values of a deeper edge was not recognised',
+                      construct='Edge.get_likelihood: parent of L')
 
 
 def d1(ctx, rep):
